@@ -120,6 +120,14 @@ Definition config_eqb (a b : config) : bool :=
   Z.eqb (c_limit_mib a) (c_limit_mib b) && Z.eqb (c_spike_mib a) (c_spike_mib b) &&
   Z.eqb (c_limit_pct a) (c_limit_pct b) && Z.eqb (c_spike_pct a) (c_spike_pct b).
 
+Fixpoint ctx_obs_run (s : life) (os : list cop) : list life_obs :=
+  match os with
+  | [] => []
+  | o :: os' =>
+      let '(s1, e) := cstep s o in
+      (e, refcnt s1, goroutine s1, checking s1) :: ctx_obs_run s1 os'
+  end.
+
 (* ---- cases ----------------------------------------------------------------------------------- *)
 Inductive vcase :=
 (* Validate() class; NewMemoryLimiter outcome: 0 = error, 1 = panic, 2 = limiter with usage checker (limit, spike) *)
@@ -143,7 +151,9 @@ Inductive vcase :=
 | CQuotaV2 (f : v2_file) (obs : quota_res)
 | CTotal (e : mem_env) (obs : option Z)
 (* NewDefaultConfig() as the Go struct's seven fields *)
-| CDefault (obs : config).
+| CDefault (obs : config)
+(* Start(ctx_i) / Shutdown / "ctx_i ends" scripts: same observation per op as CLife *)
+| CCtxLife (ops : list cop) (obs : list life_obs).
 
 Definition check_case (c : vcase) : bool :=
   match c with
@@ -177,6 +187,7 @@ Definition check_case (c : vcase) : bool :=
   | CQuotaV2 f obs => quota_eqb (memory_quota_v2 f) obs
   | CTotal e obs => option_eqb Z.eqb (total_memory e) obs
   | CDefault obs => config_eqb default_config obs
+  | CCtxLife ops obs => list_eqb life_obs_eqb (ctx_obs_run life0 ops) obs
   end.
 
 (* model outputs, for replay files *)
@@ -206,4 +217,5 @@ Definition model_out (c : vcase) : mout :=
   | CQuotaV2 f _ => MQuota (memory_quota_v2 f)
   | CTotal e _ => MTotal (total_memory e)
   | CDefault _ => MDefault default_config
+  | CCtxLife ops _ => MLife (ctx_obs_run life0 ops)
   end.
